@@ -5423,3 +5423,103 @@ func rulePendingIntervalCoversLine(r *Run, rule string) {
 		}
 	}
 }
+
+// ruleUnitResetsWhenAccessDone (R07.33): an execute unit that waits for its cache controller
+// (it steps the controller's read or write coroutine and tests the "done" answer) returns ITS
+// OWN coroutine to the start once the access is done — `Reset()` / `ExecuteWithReset` on the
+// side where done holds. A unit left suspended never takes another instruction and never
+// reports empty.
+func ruleUnitResetsWhenAccessDone(r *Run, rule string) {
+	w := r.W
+	for _, v := range variants(w) {
+		if v.pkg == nil || !v.pipelined() || !usesLineLocks(w, v) {
+			continue
+		}
+		info := v.info
+		for _, f := range v.pkg.Syntax {
+			for _, d := range f.Decls {
+				fd, ok := d.(*ast.FuncDecl)
+				if !ok || fd.Body == nil {
+					continue
+				}
+				n := 0
+				var scan func(list []ast.Stmt)
+				scan = func(list []ast.Stmt) {
+					for i, st := range list {
+						// resp := X.Cycle(…) on a coroutine FIELD (another unit's access coroutine)
+						as, ok := st.(*ast.AssignStmt)
+						if ok && len(as.Lhs) == 1 && len(as.Rhs) == 1 {
+							if c, ok := as.Rhs[0].(*ast.CallExpr); ok {
+								if sel, ok := c.Fun.(*ast.SelectorExpr); ok && sel.Sel.Name == "Cycle" && isCoroutineNamed(info.TypeOf(sel.X)) {
+									if _, isField := ast.Unparen(sel.X).(*ast.SelectorExpr); isField {
+										if id, ok := as.Lhs[0].(*ast.Ident); ok {
+											resp := info.Defs[id]
+											// the test of a bool field of resp in the following statements
+											for j, nx := range list[i+1:] {
+												is, ok := nx.(*ast.IfStmt)
+												if !ok {
+													continue
+												}
+												c2 := ast.Unparen(is.Cond)
+												neg := false
+												if u, ok := c2.(*ast.UnaryExpr); ok && u.Op == token.NOT {
+													c2, neg = ast.Unparen(u.X), true
+												}
+												fs, ok := c2.(*ast.SelectorExpr)
+												if !ok {
+													continue
+												}
+												if rid, ok := ast.Unparen(fs.X).(*ast.Ident); !ok || info.Uses[rid] != resp || typeName(info.TypeOf(fs)) != "bool" {
+													continue
+												}
+												var doneSide []ast.Node
+												if !neg {
+													doneSide = []ast.Node{is.Body}
+												} else if terminates(is.Body.List) {
+													for _, q := range list[i+1+j+1:] {
+														doneSide = append(doneSide, q)
+													}
+												}
+												resets := false
+												for _, q := range doneSide {
+													ast.Inspect(q, func(k ast.Node) bool {
+														if cc, ok := k.(*ast.CallExpr); ok {
+															if s2, ok := cc.Fun.(*ast.SelectorExpr); ok && (s2.Sel.Name == "Reset" || s2.Sel.Name == "ExecuteWithReset") {
+																if sl := info.Selections[s2]; sl != nil && len(sl.Index()) > 1 {
+																	resets = true // promoted from the unit's own embedded coroutine
+																}
+															}
+														}
+														return true
+													})
+												}
+												n++
+												r.check(resets, rule, fmt.Sprintf("%s.%s:done-resets#%d", v.rel, declName(fd), n), is.Pos(), "once the controller's access is done the unit returns its own coroutine to the start")
+												break
+											}
+										}
+									}
+								}
+							}
+						}
+						// nested lists and closures
+						ast.Inspect(st, func(k ast.Node) bool {
+							switch x := k.(type) {
+							case *ast.FuncLit:
+								scan(x.Body.List)
+								return false
+							case *ast.BlockStmt:
+								if k != ast.Node(st) {
+									scan(x.List)
+									return false
+								}
+							}
+							return true
+						})
+					}
+				}
+				scan(fd.Body.List)
+			}
+		}
+	}
+}
